@@ -3,8 +3,9 @@
    the laws of HugrWire!Resolve and prints the expected result. *)
 EXTENDS HugrTerms, Json
 VARIABLES t, reg
-Keys == {<<"e1", "Lin">>, <<"e1", "Cpy">>, <<"e1", "P">>, <<"e2", "Q2">>}
+Keys == {<<"e1", "Lin">>, <<"e1", "Cpy">>, <<"e1", "P">>, <<"e2", "Q2">>, <<"e1", "Pair">>}
 Defs == (<<"e1", "Lin">> :> Explicit("A")) @@ (<<"e1", "Cpy">> :> Explicit("C")) @@ (<<"e1", "P">> :> FromParams(<<0>>)) @@ (<<"e2", "Q2">> :> Explicit("A"))
+        @@ (<<"e1", "Pair">> :> FromParams(<<0, 1>>))            \* bound = join over two arguments
 Regs == {[k \in S |-> Defs[k]] : S \in SUBSET Keys}
 O(e, id, args, b) == OpaqueT(e, id, args, b)
 Lin == O("e1", "Lin", <<>>, "A")
@@ -12,11 +13,14 @@ Cpy == O("e1", "Cpy", <<>>, "C")
 Q2  == O("e2", "Q2", <<>>, "A")
 Unk == O("e9", "Lin", <<>>, "A")                 \* an extension no registry holds
 PA(x) == O("e1", "P", <<TyArg(x)>>, Bound(x))     \* declared bound consistent with the definition (from-params [0])
+JoinB(a, b) == IF a = "C" /\ b = "C" THEN "C" ELSE "A"
+Pair(x, y) == O("e1", "Pair", <<TyArg(x), TyArg(y)>>, JoinB(Bound(x), Bound(y)))
 Leaf == {Lin, Cpy, Q2, Unk, BoolT, QubitT}
 L1 == {PA(x) : x \in Leaf} \cup {TupleT(<<x, y>>) : x, y \in Leaf} \cup {OptionT(<<x>>) : x \in Leaf}
       \cup {GenSumT(<<<<x>>, <<y>>>>) : x, y \in {Lin, Cpy, Unk}} \cup {FnT(<<x>>, <<y>>) : x, y \in {Lin, Cpy, Q2, BoolT}}
       \cup {O("e1", "P", <<TyArg(x), SeqArg(<<TyArg(y), NatArg(1)>>)>>, Bound(x)) : x, y \in {Lin, Cpy, Unk}}
       \cup {EitherT(<<x>>, <<y>>) : x, y \in {Lin, Q2, BoolT}}
+      \cup {Pair(x, y) : x, y \in {Cpy, BoolT, QubitT, Lin}}
 Rep1 == {PA(Lin), PA(Cpy), TupleT(<<Lin, Cpy>>), FnT(<<Q2>>, <<Lin>>), PA(Unk), OptionT(<<Cpy>>)}
 L2 == {PA(x) : x \in Rep1} \cup {TupleT(<<x, y>>) : x, y \in Rep1} \cup {FnT(<<x>>, <<y>>) : x, y \in Rep1}
       \cup {GenSumT(<<<<x, Lin>>, <<>>>>) : x \in Rep1} \cup {O("e9", "Z", <<TyArg(x), SeqArg(<<TyArg(x)>>)>>, "A") : x \in Rep1}
